@@ -1,4 +1,5 @@
 """C05 The function is only evaluated where the chosen method promises."""
+from ..dv import NONZERO_STEPS
 from fractions import Fraction as Fr
 
 from ..srcmodel import AnalysisError
@@ -252,7 +253,7 @@ def untouched(ctx):
                 d = C(f, method=method, step=StepGenModel(num_steps=7))
                 return d(s.x_array((3,)))
             try:
-                ex = explore(ctx.repo, body, pinned={'(np.abs(step) > 0).all()': True})
+                ex = explore(ctx.repo, body, pinned=NONZERO_STEPS)
             except AnalysisError as exc:
                 rep.undecided('R-UNTOUCHED', 'core.%s.__call__' % cls, exc, '%s/%s' % (cls, method))
                 continue
